@@ -1,6 +1,7 @@
 import SaModel.Props.C18
 import SaModel.Props.C01Complete
 import SaModel.Lemmas.C18BlamePush
+import SaModel.Lemmas.C18BlameRaw
 /-
 C18 — blame against the SPECIFICATION (serializer side).
 
@@ -22,24 +23,25 @@ theorem foldl_push_takeRest (ext : Ext) : ∀ (rows : List SVal) (b0 b : B), row
     obtain ⟨b1, h1, h⟩ := (Build.bind_ok _ _ _).1 h
     rw [foldl_push_takeRest ext rest b1 b h, push_takeRest ext x b0 b1 h1]
 
-/-- **C18_ser_blame** (PARTIAL: values of the fragment `frag` — `Some` / newtype layers, `None`, unit, every scalar call,
-bytes, sequences, struct records, unit and newtype variants, nested arbitrarily, into EVERY builder family; missing: tuples /
-tuple structs, maps, tuple and struct variants, which `frag` excludes).  A builder created by `build_builder` at `path` for a field of type `dt`,
-after any successfully pushed rows, under the hypotheses of `push_err_iff`: an error of the next `push` is annotated
-`field` = `render path segs`, `data_type` = the label of the type at `segs`, for a position `segs` of the schema that
-`Spec.blameDT` blames for this value.  No exception: the former cell `dict_null_cell` (`None` for a non-nullable
-dictionary column was refused by the dictionary's key builder, `{p}.key`, where the specification names the dictionary
-column `p`) is gone with repo fix ca6f255 — see `dict_null_repaired` / `dict_null_cell_pinned` below. -/
-theorem C18_ser_blame_partial (ext : Ext) [ExtPlain ext] (dt : DataType) (path : String) (n : Bool) (md : Metadata)
+/-- **C18_ser_blame.**  A builder created by `build_builder` at `path` for a field of type `dt`, after any
+successfully pushed rows, under the hypotheses of `push_err_iff` (WFB, Safe, Shape, total, noRaw, NoCap): an error of the
+next `push` — for EVERY serde value without raw key / value streams: `Some` / newtype layers, `None`, unit, every scalar
+call, bytes, sequences, tuples, tuple structs, struct records, maps (into struct builders and into map builders), unit /
+newtype / tuple / struct variants, nested arbitrarily, into EVERY builder family — is annotated `field` = `render path
+segs`, `data_type` = the label of the type at `segs`, for a position `segs` of the schema that `Spec.blameDT` blames for
+this value.  No exception (the former cell `dict_null_cell` is gone with repo fix ca6f255, see `dict_null_repaired`; the
+cell `tuple_variant_list_cell`, where `Spec.blameDT` named only the variant's column for a failing element of a tuple
+variant presented to a list-typed variant column, was a coarse arm of the SPECIFICATION and is repaired there). -/
+theorem C18_ser_blame (ext : Ext) [ExtPlain ext] (dt : DataType) (path : String) (n : Bool) (md : Metadata)
     (b0 : B) (h0 : newDT path dt n md = .ok b0) (rows : List SVal) (b : B) (hb : rows.foldlM (push ext) b0 = .ok b)
-    (x : SVal) (hfrag : frag x = true)
+    (x : SVal)
     (hwf : WFB b) (hsafe : Safe b) (hshape : Shape b dt n md) (htot : total dt n md = true) (hraw : noRaw x = true)
     (hcap : NoCap ext b x) (msg : String) (ann : List (String × String)) (h : push ext b x = .error (.errCtx msg ann)) :
     ∃ segs label, (segs, label) ∈ segsDT dt md ∧ ann = [("data_type", label), ("field", render path segs)] ∧
       render path segs ∈ blameDT ext path dt n md x := by
   have hat : At path dt n md b :=
     ⟨b0, h0, foldl_push_takeRest ext rows b0 b hb⟩
-  obtain ⟨p, hp, hf⟩ := push_bl ext x hfrag hraw b path dt n md ⟨hwf, hsafe, hshape, htot⟩ hat hcap msg ann h
+  obtain ⟨p, hp, hf⟩ := push_bl ext x hraw b path dt n md ⟨hwf, hsafe, hshape, htot⟩ hat hcap msg ann h
   rcases push_error_in_schema ext dt path n md b0 h0 rows b hb x _ h with ⟨s, hs⟩ | ⟨msg', segs, label, hmem, he⟩
   · cases hs
   · cases he
@@ -48,16 +50,37 @@ theorem C18_ser_blame_partial (ext : Ext) [ExtPlain ext] (dt : DataType) (path :
     rw [this]; exact hp
 
 /-- the same at the record level (`to_marrow` / `ArrayBuilder::push`): `$`-rooted paths, `Spec.blameRow` -/
-theorem C18_ser_blame_record_partial (ext : Ext) [ExtPlain ext] (fields : List Field) (root0 : B)
+theorem C18_ser_blame_record (ext : Ext) [ExtPlain ext] (fields : List Field) (root0 : B)
     (h0 : newRoot fields = .ok root0) (rows : List SVal) (root : B) (hb : rows.foldlM (push ext) root0 = .ok root)
-    (x : SVal) (hfrag : frag x = true) (hwf : WFB root) (hsafe : Safe root)
+    (x : SVal) (hwf : WFB root) (hsafe : Safe root)
     (hshape : Shape root (.struct (Fields.ofList fields)) false [])
     (htot : total (.struct (Fields.ofList fields)) false [] = true) (hraw : noRaw x = true) (hcap : NoCap ext root x)
     (msg : String) (ann : List (String × String)) (h : push ext root x = .error (.errCtx msg ann)) :
     ∃ segs label, (segs, label) ∈ segsDT (.struct (Fields.ofList fields)) [] ∧
       ann = [("data_type", label), ("field", render "$" segs)] ∧ render "$" segs ∈ blameRow ext fields x :=
-  C18_ser_blame_partial ext (.struct (Fields.ofList fields)) "$" false [] root0 (by simpa [newRoot, newDT] using h0) rows root hb
-    x hfrag hwf hsafe hshape htot hraw hcap msg ann h
+  C18_ser_blame ext (.struct (Fields.ofList fields)) "$" false [] root0 (by simpa [newRoot, newDT] using h0) rows root hb
+    x hwf hsafe hshape htot hraw hcap msg ann h
+
+/-- **C18_ser_blame_raw** (the one step beyond `noRaw`): the value is a WELL-FORMED raw stream of `serialize_key` /
+`serialize_value` calls (`isAlternating ops`: what serde's default `serialize_entry` issues) whose keys and values carry
+no further raw streams.  For the builders, for `Spec.interpDT` and for `Spec.blameDT` such a stream IS the map of its
+entries (`push_mapRaw_alt`, `interpDT_mapRaw_alt`, `blameDT_mapRaw_alt`; a struct builder must have fewer than
+`usize::MAX` fields, so that a field index is never the `UNKNOWN_KEY` marker), hence `C18_ser_blame` applies; the capacity
+hypothesis is stated for the entries (`vsize (.mapRaw _)` does not measure them).  Malformed streams have no meaning
+(`blameDT = []`, C16) and are outside; so are raw streams nested below the top-level value. -/
+theorem C18_ser_blame_raw (ext : Ext) [ExtPlain ext] (dt : DataType) (path : String) (n : Bool) (md : Metadata)
+    (b0 : B) (h0 : newDT path dt n md = .ok b0) (rows : List SVal) (b : B) (hb : rows.foldlM (push ext) b0 = .ok b)
+    (ops : SMapOps) (halt : isAlternating ops = true)
+    (hwf : WFB b) (hsafe : Safe b) (hshape : Shape b dt n md) (htot : total dt n md = true)
+    (hraw : noRawe (toEntries ops) = true) (hcap : NoCap ext b (.map (toEntries ops)))
+    (hbig : ∀ p len v fs c nx sn, b = .struct p len v fs c nx sn → fs.length ≤ UNKNOWN_KEY)
+    (msg : String) (ann : List (String × String)) (h : push ext b (.mapRaw ops) = .error (.errCtx msg ann)) :
+    ∃ segs label, (segs, label) ∈ segsDT dt md ∧ ann = [("data_type", label), ("field", render path segs)] ∧
+      render path segs ∈ blameDT ext path dt n md (.mapRaw ops) := by
+  rw [push_mapRaw_alt ext b ops halt hbig] at h
+  rw [blameDT_mapRaw_alt ext path dt n md ops halt]
+  exact C18_ser_blame ext dt path n md b0 h0 rows b hb (.map (toEntries ops)) hwf hsafe hshape htot
+    (by simpa [noRaw] using hraw) hcap msg ann h
 
 /-! ### non-vacuity -/
 
@@ -73,7 +96,7 @@ def exRowMissing : SVal := .record "R" (.cons "orders" 0 (.seq (.cons (.record "
   (.cons (.record "O" (.cons "note" 1 (.str "n") .nil)) .nil))) .nil)
 
 /-- the specification blames exactly the leaf / exactly the element struct, and that is what the builders name; the
-rows are in the fragment, carry no raw streams and fit -/
+rows carry no raw streams and fit -/
 example :
     blameRow {} exSchema exRowLeaf = ["$.orders.element.price"] ∧
     (do let root ← newRoot exSchema; push {} root exRowLeaf) =
@@ -81,9 +104,93 @@ example :
     blameRow {} exSchema exRowMissing = ["$.orders.element"] ∧
     (do let root ← newRoot exSchema; push {} root exRowMissing) =
       .error (.errCtx "Missing non-nullable field price in struct" [("data_type", "Struct(..)"), ("field", "$.orders.element")]) ∧
-    frag exRowLeaf = true ∧ noRaw exRowLeaf = true ∧ frag exRowMissing = true ∧
+    noRaw exRowLeaf = true ∧ noRaw exRowMissing = true ∧
     total (.struct (Fields.ofList exSchema)) false [] = true ∧ exSchema.all coveredF = true :=
-  ⟨by decide +kernel, by decide +kernel, by decide +kernel, by decide +kernel, by decide, by decide, by decide, by decide, by decide⟩
+  ⟨by decide +kernel, by decide +kernel, by decide +kernel, by decide +kernel, by decide, by decide, by decide, by decide⟩
+
+/-! ### non-vacuity for the value kinds added last: tuples, maps, tuple / struct variants -/
+
+def exSchema2 : List Field :=
+  [.mk "a" .int32 false [],
+   .mk "m" (.map (.mk "entries" (.struct (.cons (.mk "key" .utf8 false []) (.cons (.mk "value" .int8 false []) .nil))) false []) false) true []]
+
+def exSchema3 : List Field :=
+  [.mk "a" .int32 false [],
+   .mk "u" (.union (.cons 0 (.mk "A" (.struct (.cons (.mk "x" .int32 false []) (.cons (.mk "y" .utf8 true []) .nil))) false [])
+      (.cons 1 (.mk "B" (.list (.mk "element" .int32 false [])) false []) .nil)) .dense) true []]
+
+/-- the row as a tuple: the second element (the map column `m`) is a map whose value 300 does not fit `Int8` -/
+def exRowTupleMap : SVal := .tuple (.cons (.int .i32 1) (.cons (.map (.cons (.str "k") (.int .i32 300) .nil)) .nil))
+
+/-- the row as a tuple struct that stops before the required first field -/
+def exRowTupleShort : SVal := .tupleStruct "R" .nil
+
+/-- the row as a map with a key that is not a string: the root struct's own failure -/
+def exRowMapKey : SVal := .map (.cons (.int .i32 7) (.int .i32 1) .nil)
+
+/-- the row as a map; `u` receives the struct variant `A { y: "t" }` that lacks the required `x` -/
+def exRowStructVariant : SVal := .map (.cons (.str "a") (.int .i32 1)
+  (.cons (.str "u") (.structVariant "E" 0 "A" (.cons "y" 0 (.str "t") .nil)) .nil))
+
+/-- `u` receives the tuple variant `A(1, true)`: the second field `y: Utf8` refuses... nothing (`bool` formats), the
+first is fine — so take `A("s")`: `x: Int32` refuses a string, two builders below the union -/
+def exRowTupleVariant : SVal := .record "R" (.cons "a" 0 (.int .i32 1)
+  (.cons "u" 1 (.tupleVariant "E" 0 "A" (.cons (.str "s") .nil)) .nil))
+
+example :
+    blameRow {} exSchema2 exRowTupleMap = ["$.m.entries.value"] ∧
+    (do let root ← newRoot exSchema2; push {} root exRowTupleMap) =
+      .error (.errCtx "out of range integral type conversion attempted" [("data_type", "Int8"), ("field", "$.m.entries.value")]) ∧
+    blameRow {} exSchema2 exRowTupleShort = ["$"] ∧
+    (do let root ← newRoot exSchema2; push {} root exRowTupleShort) =
+      .error (.errCtx "Missing non-nullable field a in struct" [("data_type", "Struct(..)"), ("field", "$")]) ∧
+    blameRow {} exSchema2 exRowMapKey = ["$"] ∧
+    (do let root ← newRoot exSchema2; push {} root exRowMapKey) =
+      .error (.errCtx "serialize_i32 is not supported" [("data_type", "Struct(..)"), ("field", "$")]) ∧
+    blameRow {} exSchema3 exRowStructVariant = ["$.u.A"] ∧
+    (do let root ← newRoot exSchema3; push {} root exRowStructVariant) =
+      .error (.errCtx "Missing non-nullable field x in struct" [("data_type", "Struct(..)"), ("field", "$.u.A")]) ∧
+    blameRow {} exSchema3 exRowTupleVariant = ["$.u.A.x"] ∧
+    (do let root ← newRoot exSchema3; push {} root exRowTupleVariant) =
+      .error (.errCtx "serialize_str is not supported" [("data_type", "Int32"), ("field", "$.u.A.x")]) ∧
+    noRaw exRowTupleMap = true ∧ noRaw exRowTupleShort = true ∧ noRaw exRowMapKey = true ∧
+    noRaw exRowStructVariant = true ∧ noRaw exRowTupleVariant = true ∧
+    total (.struct (Fields.ofList exSchema2)) false [] = true ∧ exSchema2.all coveredF = true ∧
+    total (.struct (Fields.ofList exSchema3)) false [] = true ∧ exSchema3.all coveredF = true :=
+  ⟨by decide +kernel, by decide +kernel, by decide +kernel, by decide +kernel, by decide +kernel, by decide +kernel,
+   by decide +kernel, by decide +kernel, by decide +kernel, by decide +kernel,
+   by decide, by decide, by decide, by decide, by decide, by decide, by decide, by decide, by decide⟩
+
+/-- non-vacuity of `C18_ser_blame_raw`: the row as a raw stream `key "a", value "s"` — well-formed, `a: Int32` refuses the
+string; and a malformed stream (two keys) has no blamed position -/
+example :
+    isAlternating (.key (.str "a") (.value (.str "s") .nil)) = true ∧
+    blameRow {} exSchema2 (.mapRaw (.key (.str "a") (.value (.str "s") .nil))) = ["$.a"] ∧
+    (do let root ← newRoot exSchema2; push {} root (.mapRaw (.key (.str "a") (.value (.str "s") .nil)))) =
+      .error (.errCtx "serialize_str is not supported" [("data_type", "Int32"), ("field", "$.a")]) ∧
+    noRawe (toEntries (.key (.str "a") (.value (.str "s") .nil))) = true ∧
+    blameRow {} exSchema2 (.mapRaw (.key (.str "a") (.key (.str "m") .nil))) = [] :=
+  ⟨by decide, by decide +kernel, by decide +kernel, by decide, by decide +kernel⟩
+
+/-! ### the cell `tuple_variant_list_cell`: a tuple variant presented to a variant whose column is a LIST -/
+
+/-- `u: Union { B: List<Int32> }` receives the tuple variant `B(1, "x")`.  `Spec.interpDT` reads the payload as a tuple
+presented to the variant's column (a list), and so does the crate: `UnionBuilder::serialize_tuple_variant` hands
+`serialize_tuple_struct` to the variant's `ListBuilder`, whose element builder refuses the string and is named —
+`$.u.B.element` / `Int32`, the innermost field (confirmed on the real crate: corpus case
+`corpus/build/c18_tuple_variant_list.jsonl`).  Before this repair the catch-all arm of `Spec.blameDT` for a tuple variant
+whose column is not a struct answered `[{path}.{variant}, {path}]` = `["$.u.B", "$.u"]`: only ANCESTORS of the field that
+failed — the reading the property text rules out ("never … only of an ancestor when a deeper field failed").  The arm now
+blames the tuple AT the variant's column, as for a tuple presented to a list / fixed-size-list column directly. -/
+theorem tuple_variant_list_cell :
+    blameRow {} exSchema3 (.record "R" (.cons "a" 0 (.int .i32 1)
+      (.cons "u" 1 (.tupleVariant "E" 1 "B" (.cons (.int .i32 1) (.cons (.str "x") .nil))) .nil))) = ["$.u.B.element"] ∧
+    (do let root ← newRoot exSchema3
+        push {} root (.record "R" (.cons "a" 0 (.int .i32 1)
+          (.cons "u" 1 (.tupleVariant "E" 1 "B" (.cons (.int .i32 1) (.cons (.str "x") .nil))) .nil)))) =
+      .error (.errCtx "serialize_str is not supported" [("data_type", "Int32"), ("field", "$.u.B.element")]) ∧
+    "$.u.B.element" ∉ ["$.u.B", "$.u"] :=
+  ⟨by decide +kernel, by decide +kernel, by decide⟩
 
 /-! ### capacity errors (outside `blameDT`: the mapping is defined) are reported by the builder that owns the counter -/
 
@@ -106,7 +213,12 @@ annotated with the list's own path and label (never with the child's, never with
 overflow of a list at the list.
 (2) The flat owners of a capacity-limited counter — `Utf8` / `Binary` builders (data offsets), view builders (lengths
 and buffer offsets beyond `i32::MAX`), dictionary builders (the key type's range; the key conversion runs inside the
-dictionary's own `serialize_*`, un-annotated) — annotate EVERY error of a scalar call with their own path and label. -/
+dictionary's own `serialize_*`, un-annotated) — annotate EVERY error of a scalar call with their own path and label.
+(3) Map builders, the other owners of an offsets vector: on a map (`serialize_map` + entries + `end`) the map builder's
+own code fails only with `offset overflow`, only when the last offset plus the number of entries really exceeds
+`i32::MAX`, and then the error is annotated with the map's own path and `Map(..)` — not with the keys' / values' /
+entries' position.
+(4) `ListBuilder::serialize_bytes` (every byte an element): the same as (1) with the number of bytes. -/
 theorem C18_capacity_blame (ext : Ext) [ExtPlain ext] :
     (∀ (p : String) (large : Bool) (fm : FieldMeta) (v : Validity) (offs : List Int) (el : B) (xs : SVals) (x : SVal)
       (msg : String), x = .seq xs ∨ x = .tuple xs ∨ (∃ nm, x = .tupleStruct nm xs) → WFB (.list p large fm v offs el) →
@@ -115,8 +227,18 @@ theorem C18_capacity_blame (ext : Ext) [ExtPlain ext] :
       push ext (.list p large fm v offs el) x =
         .error (.errCtx "offset overflow" [("data_type", if large then "LargeList" else "List"), ("field", p)])) ∧
     (∀ (b : B) (x : SVal) (msg : String) (ann : List (String × String)), isFlatOwner b = true → isScalarCall x = true →
-      push ext b x = .error (.errCtx msg ann) → ann = [("data_type", b.label), ("field", b.path)]) := by
-  constructor
+      push ext b x = .error (.errCtx msg ann) → ann = [("data_type", b.label), ("field", b.path)]) ∧
+    (∀ (p : String) (mm : MapMeta) (v : Validity) (offs : List Int) (ks vs : B) (es : SEntries) (msg : String),
+      WFB (.map p mm v offs ks vs) → callBody ext (.map p mm v offs ks vs) (.val (.map es)) = .error (.err msg) →
+      msg = "offset overflow" ∧ ((dec ks).length : Int) + elen es > offMax false ∧
+      push ext (.map p mm v offs ks vs) (.map es) =
+        .error (.errCtx "offset overflow" [("data_type", "Map(..)"), ("field", p)])) ∧
+    (∀ (p : String) (large : Bool) (fm : FieldMeta) (v : Validity) (offs : List Int) (el : B) (bs : Bytes) (msg : String),
+      WFB (.list p large fm v offs el) → callBody ext (.list p large fm v offs el) (.val (.bytes bs)) = .error (.err msg) →
+      msg = "offset overflow" ∧ ((dec el).length : Int) + bs.length > offMax large ∧
+      push ext (.list p large fm v offs el) (.bytes bs) =
+        .error (.errCtx "offset overflow" [("data_type", if large then "LargeList" else "List"), ("field", p)])) := by
+  refine ⟨?_, ?_, ?_, ?_⟩
   · intro p large fm v offs el xs x msg hx hw hbody
     have hw' := hw
     simp only [WFB] at hw'
@@ -159,6 +281,42 @@ theorem C18_capacity_blame (ext : Ext) [ExtPlain ext] :
       | err m => simp [SaModel.ctx, B.ann] at h; exact h.2.symm
       | panic s => cases h
       | errCtx m a => exact absurd hr ((pushScalar_noctx ext b x).out m a)
+  · intro p mm v offs ks vs es msg hw hbody
+    have hw' := hw
+    simp only [WFB] at hw'
+    have hlast := hw'.1.2.1
+    obtain ⟨v', hv'⟩ := setValidity_true_total v (offs.length - 1)
+    have hres : msg = "offset overflow" ∧ ((dec ks).length : Int) + elen es > offMax false := by
+      simp only [callBody, valBody, hv', duplicateLast_total hlast, bind, Except.bind] at hbody
+      cases hpe : pushMapEntries ext (offs ++ [((dec ks).length : Int)]) ks vs es with
+      | ok r => rw [hpe] at hbody; cases hbody
+      | error e =>
+        rw [hpe] at hbody
+        simp only at hbody
+        cases hbody
+        exact pushMapEntries_plain ext es _ ks vs _ msg (by simp) (by omega) hpe
+    refine ⟨hres.1, hres.2, ?_⟩
+    obtain ⟨rfl, _⟩ := hres
+    rw [own_failure_blames_self ext _ (.map es) _ (by intro v' h; cases h) (by intro n' v' h; cases h) hbody]
+    rfl
+  · intro p large fm v offs el bs msg hw hbody
+    have hw' := hw
+    simp only [WFB] at hw'
+    have hlast := hw'.1.2.1
+    obtain ⟨v', hv'⟩ := setValidity_true_total v (offs.length - 1)
+    have hres : msg = "offset overflow" ∧ ((dec el).length : Int) + bs.length > offMax large := by
+      simp only [callBody, valBody, hv', duplicateLast_total hlast, bind, Except.bind] at hbody
+      cases hpe : pushByteElems ext large el (offs ++ [((dec el).length : Int)]) bs with
+      | ok r => rw [hpe] at hbody; cases hbody
+      | error e =>
+        rw [hpe] at hbody
+        simp only at hbody
+        cases hbody
+        exact pushByteElems_plain ext large bs el _ _ msg (by simp) (by omega) hpe
+    refine ⟨hres.1, hres.2, ?_⟩
+    obtain ⟨rfl, _⟩ := hres
+    rw [own_failure_blames_self ext _ (.bytes bs) _ (by intro v' h; cases h) (by intro n' v' h; cases h) hbody]
+    rfl
 
 /-- non-vacuity of (2), the dictionary key range: `Dictionary(Int8, Utf8)` holding 128 values refuses the 129th; the
 error is the dictionary's, `$.d` / `Dictionary(..)`, not the key builder's -/
@@ -168,20 +326,28 @@ example :
     .error (.errCtx "out of range integral type conversion attempted" [("data_type", "Dictionary(..)"), ("field", "$.d")]) := by
   decide +kernel
 
+/-- the mechanism of (3): a map builder whose last offset is `i32::MAX` refuses the next entry itself — `$.m` / `Map(..)`,
+not `$.m.entries` or the key column (the state is written down directly: a reachable one holds 2^31 − 1 entries) -/
+example :
+    push {} (.map "$.m" ⟨"entries", false, ⟨"key", false, []⟩, ⟨"value", false, []⟩⟩ none [2147483647]
+      (.bytes "$.m.entries.key" .utf8 none [0] []) (.leaf "$.m.entries.value" (.int .i32) none []))
+      (.map (.cons (.str "k") (.int .i32 1) .nil)) =
+    .error (.errCtx "offset overflow" [("data_type", "Map(..)"), ("field", "$.m")]) := by
+  decide +kernel
+
 /-! ### the former cell `dict_null_cell` (repo fix ca6f255) -/
 
 /-- **Repaired** (`dict_null_repaired`): `d: Dictionary(Int8, Utf8)`, not nullable, receives `None`.  `Spec.blameDT`
 blames the column `$.d` (the documented mapping has no null for this FIELD), and so does the crate now:
 `DictionaryUtf8Builder::serialize_none` checks the nullability of its key builder and raises the error itself, under
 the dictionary's own path and type (the innermost SCHEMA field; `key` is not a field of the user's schema — a
-dictionary has no child fields in Arrow).  The row is in the fragment and inside every hypothesis of
-`C18_ser_blame_record_partial`. -/
+dictionary has no child fields in Arrow).  The row is inside every hypothesis of `C18_ser_blame_record`. -/
 theorem dict_null_repaired :
     blameRow {} [.mk "d" (.dictionary .int8 .utf8) false []] (.record "R" (.cons "d" 0 .none .nil)) = ["$.d"] ∧
     (do let root ← newRoot [.mk "d" (.dictionary .int8 .utf8) false []]
         push {} root (.record "R" (.cons "d" 0 .none .nil))) =
       .error (.errCtx "Cannot push null for non-nullable array" [("data_type", "Dictionary(..)"), ("field", "$.d")]) ∧
-    frag (.record "R" (.cons "d" 0 .none .nil)) = true ∧
+    noRaw (.record "R" (.cons "d" 0 .none .nil)) = true ∧
     total (.struct (Fields.ofList [.mk "d" (.dictionary .int8 .utf8) false []])) false [] = true :=
   ⟨by decide +kernel, by decide +kernel, by decide, by decide⟩
 
